@@ -786,6 +786,10 @@ func (e *Env) quant(q *Quant) Val {
 	seen := map[string]bool{}
 	var attrs []string
 	for _, p := range pats {
+		// boolean connectives and ite are not allowed inside patterns
+		if strings.Contains(p, "(not ") || strings.Contains(p, "(ite ") || strings.Contains(p, "(and ") || strings.Contains(p, "(or ") || strings.Contains(p, "(=> ") || strings.Contains(p, "(<= ") || strings.Contains(p, "(< ") || strings.Contains(p, "(= ") {
+			continue
+		}
 		if !seen[p] && strings.Contains(p, j.S) {
 			seen[p] = true
 			attrs = append(attrs, ":pattern ("+p+")")
